@@ -84,6 +84,11 @@ template <class T> T* ptr(std::vector<T>& v)
   return v.empty() ? dummy : v.data();
 }
 
+/* output (buffered; flushed at the end and by the fatal-signal handler) */
+void emit_line(const json& o);
+void flush_all();
+void install_crash_reporting();
+
 /* the program of one rank: called inside an SMPI actor */
 void rank_main(const json& kase);
 
